@@ -441,3 +441,275 @@ theorem cert_solution (d : Nat) (R : Region) (L : Mat) (hwf : R.WF d)
   exact h2
 
 end PorepyVerif.C11
+
+/-! ## consequences of "all gradients equal `a`" (shared by the region and the grid theorems) -/
+
+namespace PorepyVerif.C11
+
+theorem flux_of_const (d : Nat) (R : Region) (K : Mat) (a : Vec) (b : Rat) (hwf : R.WF d)
+    (hdata : R.AffineData K a b) (Gf : Nat → Vec) (hgrad : ∀ i < R.cells.length, Gf i = a)
+    (f : SubFace) (hf : f ∈ R.faces) : f.flux R Gf = -(nKg f.n K a) := by
+  have hi := idxOK_first _ _ (hwf.2 f hf).2.2
+  unfold SubFace.flux
+  rw [hgrad _ hi, (hdata.1 _ (cellAt_mem R _ hi)).1]
+
+theorem pres_of_const (d : Nat) (R : Region) (K : Mat) (a : Vec) (b : Rat) (hwf : R.WF d)
+    (hdata : R.AffineData K a b) (Gf : Nat → Vec) (hgrad : ∀ i < R.cells.length, Gf i = a)
+    (f : SubFace) (hf : f ∈ R.faces) : f.pres R Gf = affine a b f.xc := by
+  obtain ⟨_, hxc, hidx⟩ := hwf.2 f hf
+  have hP : ∀ i, i < R.cells.length → presAt (R.cellAt i) (Gf i) f.xc = affine a b f.xc := by
+    intro i hi
+    have hm := cellAt_mem R i hi
+    rw [hgrad i hi]
+    exact presAt_affine _ a b f.xc (hdata.1 _ hm).2 (by rw [hxc, (hwf.1 _ hm).1])
+  unfold SubFace.pres SubFace.pres1
+  cases hk : f.kind with
+  | interior i j =>
+    rw [hk] at hidx
+    show (presAt (R.cellAt i) (Gf i) f.xc + presAt (R.cellAt j) (Gf j) f.xc) / 2 = _
+    rw [hP i hidx.1, hP j hidx.2.1]; grind
+  | dirichlet i pD => rw [hk] at hidx; exact hP i hidx
+  | neumann i sgn qN => rw [hk] at hidx; exact hP i hidx
+
+/-! ## the local matrix does not depend on the data -/
+
+def SubCell.erase (c : SubCell) : SubCell := ⟨c.x, c.K, 0⟩
+def Kind.erase : Kind → Kind
+  | .interior i j => .interior i j
+  | .dirichlet i _ => .dirichlet i 0
+  | .neumann i s _ => .neumann i s 0
+def SubFace.erase (f : SubFace) : SubFace := ⟨f.n, f.xc, f.kind.erase⟩
+def Region.erase (R : Region) : Region := ⟨R.cells.map SubCell.erase, R.faces.map SubFace.erase⟩
+
+theorem cellAt_erase (R : Region) (i : Nat) : R.erase.cellAt i = (R.cellAt i).erase := by
+  unfold Region.cellAt Region.erase
+  simp only [List.getD_eq_getElem?_getD, List.getElem?_map]
+  cases R.cells[i]? <;> rfl
+
+theorem erase_cells_length (R : Region) : R.erase.cells.length = R.cells.length := by
+  simp [Region.erase]
+
+theorem rows_erase (d : Nat) (R : Region) (f : SubFace) :
+    (f.erase.rows d R.erase).map (·.coef) = (f.rows d R).map (·.coef) := by
+  unfold SubFace.rows
+  cases hk : f.kind <;>
+    simp [SubFace.erase, Kind.erase, hk, cellAt_erase, SubCell.erase, erase_cells_length]
+
+theorem matrix_erase (d : Nat) (R : Region) : R.erase.matrix d = R.matrix d := by
+  unfold Region.matrix Region.rows
+  have : ∀ fs : List SubFace,
+      ((fs.map SubFace.erase).flatMap (fun f => f.rows d R.erase)).map (·.coef) =
+        (fs.flatMap (fun f => f.rows d R)).map (·.coef) := by
+    intro fs
+    induction fs with
+    | nil => rfl
+    | cons f fs ih =>
+      simp only [List.map_cons, List.flatMap_cons, List.map_append, ih, rows_erase]
+  exact this R.faces
+
+theorem certOK_of_erase_eq (d : Nat) (R R' : Region) (L : Mat) (h : R.erase = R'.erase) :
+    certOK d R L = certOK d R' L := by
+  unfold certOK
+  have hm : R.matrix d = R'.matrix d := by rw [← matrix_erase d R, ← matrix_erase d R', h]
+  have hl : R.cells.length = R'.cells.length := by
+    have := congrArg (fun X => X.cells.length) h
+    simpa [Region.erase] using this
+  rw [hm, hl]
+
+/-! ## the 2-D grid model -/
+
+theorem getD_mem' {α : Type} (l : List α) (i : Nat) (d : α) (h : i < l.length) : l.getD i d ∈ l := by
+  rw [List.getD_eq_getElem?_getD, List.getElem?_eq_getElem h]
+  exact List.getElem_mem h
+
+theorem getD_map_range {α : Type} (g : Nat → α) (n i : Nat) (d : α) (h : i < n) :
+    ((List.range n).map g).getD i d = g i := by
+  rw [List.getD_eq_getElem?_getD, List.getElem?_eq_getElem (by simpa using h)]
+  simp
+
+namespace Grid2
+variable (G : Grid2)
+
+theorem mem_facesOf (v f : Nat) : f ∈ G.facesOf v ↔ f < G.numFaces ∧ v ∈ G.fnodes f := by
+  simp [facesOf, List.mem_filter]
+
+theorem mem_cellsOf (v c : Nat) :
+    c ∈ G.cellsOf v ↔ c < G.numCells ∧ ∃ f ∈ G.facesOf v, ∃ s, (c, s) ∈ G.fcells f := by
+  simp [cellsOf, List.mem_filter]
+
+theorem loc_lt (v c : Nat) (h : c ∈ G.cellsOf v) : G.loc v c < (G.cellsOf v).length :=
+  List.idxOf_lt_length_of_mem h
+
+theorem loc_inj (v c1 c2 : Nat) (h1 : c1 ∈ G.cellsOf v) (h2 : c2 ∈ G.cellsOf v)
+    (h : G.loc v c1 = G.loc v c2) : c1 = c2 := by
+  have e1 : (G.cellsOf v)[(G.cellsOf v).idxOf c1]? = some c1 := by
+    rw [List.getElem?_eq_getElem (List.idxOf_lt_length_of_mem h1)]
+    exact congrArg some (List.getElem_idxOf _)
+  have e2 : (G.cellsOf v)[(G.cellsOf v).idxOf c2]? = some c2 := by
+    rw [List.getElem?_eq_getElem (List.idxOf_lt_length_of_mem h2)]
+    exact congrArg some (List.getElem_idxOf _)
+  unfold loc at h
+  rw [h, e2] at e1
+  exact (Option.some.inj e1).symm
+
+/-- shape of the cell list of a face in a well-formed grid -/
+theorem fcells_cases (hwf : G.WF) (f : Nat) (hf : f < G.numFaces) :
+    (∃ c s, G.fcells f = [(c, s)] ∧ c < G.numCells) ∨
+    (∃ c1 s1 c2 s2, G.fcells f = [(c1, s1), (c2, s2)] ∧ c1 < G.numCells ∧ c2 < G.numCells ∧ c1 ≠ c2) := by
+  obtain ⟨hfc, _, _, _, _, _, _, _, _, _, hfcells⟩ := hwf
+  have h := hfcells _ (getD_mem' G.faceCells f [] (by rw [hfc]; exact hf))
+  change fcOK G.numCells (G.fcells f) at h
+  rcases hl : G.fcells f with _ | ⟨⟨c, s⟩, _ | ⟨⟨c2, s2⟩, _ | ⟨x, rest⟩⟩⟩
+  · rw [hl] at h; simp [fcOK] at h
+  · rw [hl] at h; left; exact ⟨c, s, rfl, by simpa [fcOK] using h⟩
+  · rw [hl] at h; right; exact ⟨c, s, c2, s2, rfl, by simpa [fcOK] using h⟩
+  · rw [hl] at h; simp [fcOK] at h
+
+theorem mkFace_n (bc : List Rat) (v f : Nat) :
+    (G.mkFace bc v f).n = smul (1 / G.nN f) (G.fnAt f) := by
+  unfold mkFace
+  split
+  · split <;> rfl
+  · rfl
+  · rfl
+
+theorem mkFace_bnd (bc : List Rat) (v f c : Nat) (s : Rat) (h : G.fcells f = [(c, s)]) :
+    G.mkFace bc v f =
+      if G.dirAt f then ⟨smul (1 / G.nN f) (G.fnAt f), G.fcAt f, .dirichlet (G.loc v c) (bc.getD f 0)⟩
+      else ⟨smul (1 / G.nN f) (G.fnAt f), G.fcAt f, .neumann (G.loc v c) s (bc.getD f 0 / G.nN f)⟩ := by
+  unfold mkFace; rw [h]
+
+theorem mkFace_int (bc : List Rat) (v f c1 c2 : Nat) (s1 s2 : Rat)
+    (h : G.fcells f = [(c1, s1), (c2, s2)]) :
+    G.mkFace bc v f =
+      ⟨smul (1 / G.nN f) (G.fnAt f), vadd (G.fcAt f) (smul G.eta (vsub (G.nodeAt v) (G.fcAt f))),
+        .interior (G.loc v c1) (G.loc v c2)⟩ := by
+  unfold mkFace; rw [h]
+
+/-- the interaction region the model builds around any node of a well-formed grid is well-formed -/
+theorem region_wf (hwf : G.WF) (p bc : List Rat) (v : Nat) (hv : v < G.numNodes) :
+    (G.region p bc v).WF 2 := by
+  have hwf' := hwf
+  obtain ⟨hfc, hfcen, hfn, hperm, hnodes, hcc, hfcs, hfns, hK, hfnodes, hfcells⟩ := hwf
+  constructor
+  · intro c hc
+    simp only [region, List.mem_map] at hc
+    obtain ⟨c0, hc0, rfl⟩ := hc
+    have hlt : c0 < G.numCells := ((G.mem_cellsOf v c0).mp hc0).1
+    exact ⟨hcc _ (getD_mem' G.cellCenters c0 [] hlt),
+      hK _ (getD_mem' G.perm c0 [] (by rw [hperm]; exact hlt))⟩
+  · intro f hf
+    simp only [region, List.mem_map, List.length_map] at hf ⊢
+    obtain ⟨f0, hf0, rfl⟩ := hf
+    obtain ⟨hflt, hvf⟩ := (G.mem_facesOf v f0).mp hf0
+    have hn2 : (G.fnAt f0).length = 2 := hfns _ (getD_mem' G.faceNormals f0 [] (by rw [hfn]; exact hflt))
+    have hc2 : (G.fcAt f0).length = 2 := hfcs _ (getD_mem' G.faceCenters f0 [] (by rw [hfcen]; exact hflt))
+    have hx2 : (G.nodeAt v).length = 2 := hnodes _ (getD_mem' G.nodes v [] hv)
+    have hmem : ∀ c s, (c, s) ∈ G.fcells f0 → c < G.numCells → c ∈ G.cellsOf v := fun c s hcs hlt =>
+      (G.mem_cellsOf v c).mpr ⟨hlt, f0, hf0, s, hcs⟩
+    rcases G.fcells_cases hwf' f0 hflt with ⟨c, s, hl, hc⟩ | ⟨c1, s1, c2, s2, hl, hc1, hc2', hne⟩
+    · have hcm := hmem c s (by rw [hl]; simp) hc
+      rw [G.mkFace_bnd bc v f0 c s hl]
+      split
+      · exact ⟨by simp [hn2], hc2, G.loc_lt v c hcm⟩
+      · exact ⟨by simp [hn2], hc2, G.loc_lt v c hcm⟩
+    · have hm1 := hmem c1 s1 (by rw [hl]; simp) hc1
+      have hm2 := hmem c2 s2 (by rw [hl]; simp) hc2'
+      rw [G.mkFace_int bc v f0 c1 c2 s1 s2 hl]
+      refine ⟨by simp [hn2], ?_, G.loc_lt v c1 hm1, G.loc_lt v c2 hm2, ?_⟩
+      · show (vadd (G.fcAt f0) (smul G.eta (vsub (G.nodeAt v) (G.fcAt f0)))).length = 2
+        rw [length_vadd _ _ (by rw [length_smul, length_vsub _ _ (by rw [hx2, hc2]), hx2, hc2]), hc2]
+      · intro h
+        exact hne (G.loc_inj v c1 c2 hm1 hm2 h)
+
+/-- … and carries the data of the affine field when the global data do -/
+theorem region_affine (hwf : G.WF) (K : Mat) (a : Vec) (b : Rat) (p bc : List Rat)
+    (hdata : G.AffineGlobal K a b p bc) (v : Nat) : (G.region p bc v).AffineData K a b := by
+  constructor
+  · intro c hc
+    simp only [region, List.mem_map] at hc
+    obtain ⟨c0, hc0, rfl⟩ := hc
+    have hlt : c0 < G.numCells := ((G.mem_cellsOf v c0).mp hc0).1
+    exact hdata.1 c0 hlt
+  · intro f hf
+    simp only [region, List.mem_map] at hf
+    obtain ⟨f0, hf0, rfl⟩ := hf
+    obtain ⟨hflt, _⟩ := (G.mem_facesOf v f0).mp hf0
+    have hb := hdata.2 f0 hflt
+    unfold bcOK at hb
+    rcases G.fcells_cases hwf f0 hflt with ⟨c, s, hl, _⟩ | ⟨c1, s1, c2, s2, hl, _, _, _⟩
+    · rw [G.mkFace_bnd bc v f0 c s hl]
+      rw [hl] at hb
+      by_cases hd : G.dirAt f0 = true
+      · simp only [hd, if_true] at hb ⊢
+        exact hb
+      · simp only [hd] at hb ⊢
+        show bc.getD f0 0 / G.nN f0 = -(s * nKg (smul (1 / G.nN f0) (G.fnAt f0)) K a)
+        have : nKg (smul (1 / G.nN f0) (G.fnAt f0)) K a = 1 / G.nN f0 * nKg (G.fnAt f0) K a := by
+          unfold nKg; rw [dot_smul_left]
+        rw [this, hb]; grind
+    · rw [G.mkFace_int bc v f0 c1 c2 s1 s2 hl]
+      trivial
+
+theorem erase_mkFace (bc bc' : List Rat) (v f : Nat) :
+    (G.mkFace bc v f).erase = (G.mkFace bc' v f).erase := by
+  unfold mkFace
+  split
+  · split <;> rfl
+  · rfl
+  · rfl
+
+theorem erase_region (p bc p' bc' : List Rat) (v : Nat) :
+    (G.region p bc v).erase = (G.region p' bc' v).erase := by
+  simp only [region, Region.erase, List.map_map]
+  congr 1
+  apply List.map_congr_left
+  intro f _
+  exact G.erase_mkFace bc bc' v f
+
+theorem allSome_getD {α : Type} (l : List (Option α)) (r : List α) (h : allSome l = some r)
+    (i : Nat) (hi : i < l.length) (d : α) : l.getD i none = some (r.getD i d) := by
+  induction l generalizing r i with
+  | nil => simp at hi
+  | cons x l ih =>
+    cases x with
+    | none => simp [allSome] at h
+    | some a0 =>
+      cases hrec : allSome l with
+      | none => simp [allSome, hrec] at h
+      | some as =>
+        simp only [allSome, hrec, Option.some.injEq] at h
+        subst h
+        cases i with
+        | zero => simp
+        | succ i =>
+          have := ih as hrec i (by simpa using hi)
+          simpa using this
+
+/-- every certificate of `certs` passes the check for the region WITH data -/
+theorem certs_ok (Ls : List Mat) (h : G.certs = some Ls) (p bc : List Rat) (v : Nat)
+    (hv : v < G.numNodes) : certOK 2 (G.region p bc v) (Ls.getD v []) = true := by
+  unfold certs at h
+  have h1 := allSome_getD _ Ls h v (by simpa using hv) []
+  rw [getD_map_range G.certAt G.numNodes v none hv] at h1
+  unfold certAt at h1
+  rw [certOK_of_erase_eq 2 (G.region p bc v) (G.region [] [] v) _ (G.erase_region p bc [] [] v)]
+  cases hL : leftInverse ((G.region [] [] v).matrix 2) with
+  | none => rw [hL] at h1; simp at h1
+  | some L =>
+    rw [hL] at h1
+    by_cases hc : certOK 2 (G.region [] [] v) L = true
+    · simp only [hc, if_true, Option.some.injEq] at h1
+      rw [← h1]; exact hc
+    · simp [hc] at h1
+
+theorem nodeSolAt_nodeSols (Ls : List Mat) (p bc : List Rat) (v : Nat) (hv : v < G.numNodes) :
+    nodeSolAt (G.nodeSols Ls p bc) v =
+      ⟨G.region p bc v, chunks 2 (G.region p bc v).cells.length
+        (mulVec (Ls.getD v []) ((G.region p bc v).rhs 2))⟩ := by
+  unfold nodeSolAt nodeSols
+  rw [getD_map_range _ G.numNodes v _ hv]
+
+end Grid2
+
+end PorepyVerif.C11
